@@ -1053,7 +1053,12 @@ META = {
                   'through an injective slot layout, then r += code(e) -- computes at every Gauss node the C06 value of the scheduled forest '
                   '(kernel_denotes_integrand, kernel_body_accumulates), hence the entry is the Gauss sum over the joint support of that value and, under '
                   'locality, over all Gauss nodes (entry_denotes_gauss_sum, entry_denotes_full_gauss_sum); for any field, any number of axes, any well-formed '
-                  'schedule; symmetric variables and the two-phase precompute statement are not covered. Concrete syntax (coq/C01/Printer.v): the token '
+                  'schedule. Two phases (coq/C01/Kernel2.v): running the precomputable definitions without basis-function jets, keeping only '
+                  'fields[]/constants[], then the kernel definitions per entry from a store that is arbitrary on locals, gives the C06 value of the whole '
+                  'forest pre ++ ker (precompute_then_kernel_equals_forest). Symmetric variables: writing the upper triangle through sym_index_to_seq makes '
+                  'every read (i,j)/(j,i) return the expression entry when the expression is symmetric, nothing outside the block is touched '
+                  '(symmetric_storage_sound). Vector kernels: r[k] += ... and the loops are componentwise the scalar ones, so the Gauss-sum theorem holds per '
+                  'component block (kernel_body_accumulates_components, vector_loop_is_componentwise, entry_denotes_gauss_sum_component). Concrete syntax (coq/C01/Printer.v): the token '
                   'stream gencode_* prints (every binary node bracketed, prefix minus, f(...)) parses back, with the operator precedence of C, to the tree '
                   'it was printed from, for every tree (printed_code_parses_back). Front end = C06. Tied to /repo on every run by exact comparison (inside Coq) of sizes, offsets, slots, derivative '
                   'strides/offsets, support ranges on synthetic inputs and on every generated form. NOT proved: that Cython/gcc -O3 -ffast-math/libm compute the '
